@@ -127,6 +127,13 @@ Theorem C12_model_satisfies_oracle_small : forall chain,
   In chain (chains_upto 3) -> oracle (obs_of chain) = true /\ agree (obs_of chain) = true.
 Proof. exact model_satisfies_oracle_small. Qed.
 
+(** The same for the event path: 3100 cases (0-2 handlers with/without ack parameter x every chain
+    of <= 4 accepting/rejecting middlewares x client ack or not x 5 argument lists x decodable or
+    not): the model's prediction satisfies the event oracle. *)
+Theorem C12_model_events_satisfy_oracle_small : forall c,
+  In c ev_space -> eoracle c = true /\ eagree c = true.
+Proof. exact model_events_satisfy_oracle_small. Qed.
+
 (** Non-vacuity: three clients; the second is rejected by its second middleware after both
     middlewares joined it to rooms; an interleaved schedule. *)
 Example C12_example :
